@@ -88,6 +88,9 @@ class Equiv:
         self.identity = identity
         self.last = None
 
+    def make_ctx(self):
+        return RFContext(vec=self.vec, alias=self.alias, identity=self.identity)
+
     def prep(self, term):
         t = strip_all(term)
         for rw in self.rewrites:
@@ -104,7 +107,7 @@ class Equiv:
             ok = ha == hb and self._try_eq(strip(a), strip(b))
             self.last = (show(a, 300), show(b, 300))
             return ok
-        ctx = RFContext(vec=self.vec, alias=self.alias, identity=self.identity)
+        ctx = self.make_ctx()
         try:
             ra, rb = ctx.rf(a), ctx.rf(b)
         except NotRF as e:
